@@ -195,7 +195,49 @@ fn with_louvain_watch<T>(n: usize, f: impl FnOnce() -> T) -> T {
     r
 }
 
+/// the API table on the graph itself and (small graphs) on every graph DERIVED from it by another API call
 pub fn check_api(b: &Built, rec: &Recorder, c: &mut Counters) -> u64 {
+    let mut calls = check_api_one(b, rec, c);
+    if !(b.n <= 2 || b.case.starts_with("x:")) || ONLY_CALL.with(|o| o.get()).is_some() {
+        return calls;
+    }
+    let mut derived: Vec<(&'static str, G2)> = vec![];
+    let mut all: Vec<N> = b.names.clone();
+    all.reverse();
+    if let Ok(Ok(g)) = guarded(|| b.g.reverse()) {
+        derived.push(("reverse()", g));
+    }
+    if let Ok(Ok(g)) = guarded(|| b.g.to_single_edges()) {
+        derived.push(("to_single_edges()", g));
+    }
+    if let Ok(g) = guarded(|| b.g.get_subgraph(&all)) {
+        derived.push(("get_subgraph(all nodes)", g));
+    }
+    if let Ok(g) = guarded(|| b.g.set_all_edge_weights(2.0)) {
+        derived.push(("set_all_edge_weights(2.0)", g));
+    }
+    for (label, g2) in derived {
+        let kind = Kind { directed: g2.specs.directed, multi: g2.specs.multi_edges, loops: g2.specs.self_loops };
+        let names = b.names.clone();
+        let edges: Vec<(usize, usize, f64)> = g2.get_all_edges().iter().map(|e| (names.iter().position(|x| *x == e.u).unwrap_or(0), names.iter().position(|x| *x == e.v).unwrap_or(0), e.weight)).collect();
+        let node_order: Vec<usize> = g2.get_all_nodes().iter().map(|nd| names.iter().position(|x| *x == nd.name).unwrap_or(0)).collect();
+        let b2 = Built { kind, n: b.n, names, edges, node_order, g: g2, case: b.case.clone(), weighted: b.weighted };
+        set_context_note(Some(format!("the graph under check, described next, is the result of {label} on another graph")));
+        c.inc("derived_graphs_checked");
+        // violations carry the source graph's description and case; the note names the derivation
+        let inner = Recorder::new("C20", &[]);
+        calls += check_api_one(&b2, &inner, c);
+        set_context_note(None);
+        for mut v in inner.take_all() {
+            v.detail = format!("on the result of {label} of: {}\n{}", b.describe(), v.detail);
+            v.tags.push("derived_graph".into());
+            rec.record(v);
+        }
+    }
+    calls
+}
+
+fn check_api_one(b: &Built, rec: &Recorder, c: &mut Counters) -> u64 {
     let g = &b.g;
     let n = b.n;
     let mut cx = Ctx { b, rec, calls: 0, c };
